@@ -126,8 +126,10 @@ theorem J_complete (cfg : Cfg) (cur : Req) (s : Srv) (r : Resp)
         rw [hp, List.length_take]; omega
       have hsz : BlockOpt.size ⟨0, true, z⟩ = blockSize z := BlockOpt.size_eq (b := ⟨0, true, z⟩) hz
       have hz7 : ¬ z = 7 := by omega
-      have hv : BlockOpt.validFor ⟨0, true, z⟩ r.payload.length = true := by
-        simp [BlockOpt.validFor, hz7, hsz, hlen]
+      have hv : BlockOpt.okFor ⟨0, true, z⟩ r.payload.length = true := by
+        have := blockSize_pos z
+        simp [BlockOpt.okFor, BlockOpt.validFor, hz7, hsz, hlen]
+        omega
       simp only [Bool.not_true, Bool.false_eq_true, ↓reduceIte, ne_eq, not_true_eq_false, hv]
       have hinv : B2Inv ⟨r.code, r.etag, r.payload, ⟨0, true, z⟩⟩ := by
         simp only [B2Inv, hsz, hlen]
@@ -333,12 +335,16 @@ theorem J.exchange {cfg : Cfg} {rep : Bytes} {etag : Option Bytes} {code : Nat} 
     rw [step_b2_some (b := ⟨k / blockSize z, decide (k + blockSize z < s.rep.length), z⟩)
       (by simp [sliceResp])]
     have hz7 : ¬ z = 7 := by omega
-    have hvalid : BlockOpt.validFor ⟨k / blockSize z, decide (k + blockSize z < s.rep.length), z⟩
+    have hvalid : BlockOpt.okFor ⟨k / blockSize z, decide (k + blockSize z < s.rep.length), z⟩
         (sliceResp s k z none).payload.length = true := by
-      simp only [sliceResp, hplen, BlockOpt.validFor, hsize, hz7, ↓reduceIte]
+      simp only [sliceResp, hplen, BlockOpt.okFor, BlockOpt.validFor, hsize, hz7, ↓reduceIte]
       by_cases hm : k + blockSize z < s.rep.length
-      · simp only [hm, decide_true, ↓reduceIte, beq_iff_eq]; omega
-      · simp only [hm, decide_false, Bool.false_eq_true, ↓reduceIte, decide_eq_true_eq]; omega
+      · simp only [hm, decide_true, ↓reduceIte, Bool.and_eq_true, beq_iff_eq, Bool.true_and,
+          Bool.not_eq_true', beq_eq_false_iff_ne, ne_eq]
+        omega
+      · simp only [hm, decide_false, Bool.false_eq_true, ↓reduceIte, decide_eq_true_eq,
+          Bool.false_and, Bool.not_false, Bool.and_true]
+        omega
     have hnew : a.payload ++ (sliceResp s k z none).payload = s.rep.take (k + blockSize z) := by
       simp only [sliceResp]
       rw [hapay, take_append_slice]
